@@ -326,6 +326,8 @@ def _job_roundtrip(job):
                     for (name, value, fname) in spec[2]:
                         fd.add_field(name, value, filename=fname)
                         raw = value.encode() if isinstance(value, str) else value
+                        if name == "_charset_":
+                            continue        # the HTML default-charset field: consumed by the reader, not delivered as a part
                         want.append({"content": raw, "headers": {}, "disp": ("form-data", {"name": name, **({"filename": fname} if fname else {})}), "enc": None, "cenc": None})
                     mp = fd()
                     mp._boundary = B.encode()           # noqa: SLF001
@@ -403,6 +405,9 @@ def specs(quick):
         out.append(("form", q, [("f", b"data", "a.txt"), ("t", "téxt", None)]))
         out.append(("form", q, [("fi eld", b"\r\n--" + B.encode()[:-1], 'q"uo%te.txt'), ("é", "v", None)]))
         out.append(("form", q, [("n", b"", "fïle€.bin")]))
+        out.append(("form", q, [("_charset_", "utf-8", None), ("a", b"1", "a.bin"), ("b", "2", None)]))
+        out.append(("form", q, [("a", b"1", "a.bin"), ("_charset_", "iso-8859-1", None), ("b", "2", None)]))
+        out.append(("form", q, [("a", b"1", "a.bin"), ("_charset_", "utf-8", None)]))
     return out
 
 
